@@ -20,12 +20,13 @@ def chk_restricted(c):
     rng = np.random.RandomState(c['seed'])
     n = c['n']
     idx = np.array(c['indices'], dtype=int)
-    A = rng.randint(-4, 5, size=(n, n)).astype(float)
+    m = c.get('m', n)           # number of equations (Petrov-Galerkin: may differ from the number n of dofs; then elim_rows is given)
+    A = rng.randint(-4, 5, size=(m, n)).astype(float)
     if c['sparse']:
         A = scipy.sparse.csr_matrix(A)
     Ad = A.toarray() if c['sparse'] else A
-    b = 0.0 if c['rhs'] == 'zero' else (3.0 if c['rhs'] == 'scalar' else rng.randint(-5, 6, size=n).astype(float))
-    bd = np.broadcast_to(b, n) if np.isscalar(b) else b
+    b = 0.0 if c['rhs'] == 'zero' else (3.0 if c['rhs'] == 'scalar' else rng.randint(-5, 6, size=m).astype(float))
+    bd = np.broadcast_to(b, m) if np.isscalar(b) else b
     vals = 2.0 if c['values'] == 'scalar' else rng.randint(-7, 8, size=len(idx)).astype(float) * 1.0
     vd = np.broadcast_to(vals, len(idx)) if np.isscalar(vals) else vals
     elim_rows = None
@@ -50,15 +51,15 @@ def chk_restricted(c):
     assert np.array_equal(x[free], u), 'free dofs are not in increasing order / not preserved'
     assert np.array_equal(L.restrict(x), u) and np.array_equal(L.restrict(L.extend(u)), u)
     assert np.array_equal(L.extend(u)[free], u) and np.all(L.extend(u)[idx] == 0)
-    rows = free if elim_rows is None else [i for i in range(n) if i not in set(elim_rows)]
+    rows = free if elim_rows is None else [i for i in range(m) if i not in set(elim_rows)]
     # residual identity: restricted residual == residual of the completed vector on the non-eliminated equations
     lhs = L.A.dot(u) - L.b
     rhs = (Ad.dot(x) - bd)[rows]
     assert np.array_equal(np.asarray(lhs).ravel(), rhs), 'restricted system is not the original system on the non-eliminated equations'
-    B = rng.randint(-3, 4, size=(n, n)).astype(float)
+    B = rng.randint(-3, 4, size=(m, n)).astype(float)
     RB = L.restrict_matrix(scipy.sparse.csr_matrix(B) if c['seed'] % 2 else B)
     assert np.array_equal(RB.toarray(), B[np.ix_(rows, free)])
-    f = rng.randint(-3, 4, size=n).astype(float)
+    f = rng.randint(-3, 4, size=m).astype(float)
     assert np.array_equal(L.restrict_rhs(f), f[rows])
     if nfree == len(rows) and nfree > 0:
         M = L.A.toarray()
@@ -304,6 +305,15 @@ def generate(tier, rng):
             # the index set as a list / tuple / with numpy-style negative entries, with scalar and per-dof values
             yield 'restricted', {'n': n, 'indices': sub, 'sparse': bool(seed % 2), 'rhs': 'array', 'values': ['array', 'scalar'][seed % 2], 'seed': seed,
                                  'index_form': ['negative', 'list', 'tuple'][seed // 3 % 3]}
+    # Petrov-Galerkin systems: m equations for n dofs (m != n), elim_rows chosen so that the restricted system is square or not; all index forms
+    for k, (m_, n_) in enumerate(((6, 8), (8, 6), (5, 7), (7, 9), (9, 7), (4, 5))):
+        for form in (None, 'negative', 'list'):
+            seed += 1
+            r = 1 + (k + seed) % 3
+            sub = rng.sample(range(n_), r)
+            er = rng.sample(range(m_), max(0, m_ - (n_ - r))) if m_ >= n_ - r else []
+            yield 'restricted', {'n': n_, 'm': m_, 'indices': sub, 'sparse': bool(seed % 2), 'rhs': ['array', 'scalar'][seed % 2], 'values': ['array', 'scalar'][k % 2],
+                                 'seed': seed, 'elim_rows': er, 'index_form': form}
     for shape in ([3], [2, 3], [3, 3], [2, 3, 2], [3, 3, 3]):
         d = len(shape)
         for ax in range(d):
